@@ -18,6 +18,8 @@ Protocol (one case = a HISTORY over several Ribosome instances):
                                   -> ok | raise:ValueError (no name at all)
   put <id> <key> <mrnaName|-> <sequence>       instance.templates[key] = mRNA(sequence, name=mrnaName)
   The registry the caller supplied (key -> sequence) is what includes and translate(name) are judged against.
+  strict <id> <0|1>               instance.strict = bool   (public attribute re-assigned after construction)
+  filt <id> <set>                 instance.filters = builtin snapshot + the set's custom filters   (same)
   render <id> <sequence>          -> ok <text> <warned names> | raise:<Class>      (synthesize)
   translate <id> <name>
 """
@@ -495,6 +497,8 @@ class C12(Prop):
             elif o[0] == "tmpl": lines.append(f"tmpl {o[1]} {hexs(o[2])} {hexs(o[3])}")
             elif o[0] == "render": lines.append(f"render {o[1]} {hexs(o[2])}")
             elif o[0] == "translate": lines.append(f"translate {o[1]} {hexs(o[2])}")
+            elif o[0] == "strict": lines.append(f"strict {o[1]} {int(o[2])}")
+            elif o[0] == "filt": lines.append(f"filt {o[1]} {o[2]}")
             elif o[0] == "ctx": lines += [enc_ctx(o[1]), "fenv"]
         return {"lines": lines, "note": note}
 
@@ -578,6 +582,12 @@ class C12(Prop):
                     text = "ok" if R.random() < 0.4 else pr(self._tmpl(R, names[:k], braces))
                     ops.append(regop(i, names[k], text))
                     ops.append(("render", i, R.choice(tops)))
+                if R.random() < 0.06:                  # public attributes re-assigned on a live instance, then a render
+                    if R.random() < 0.6:
+                        ops.append(("strict", i, R.random() < 0.5))
+                    else:
+                        ops.append(("filt", i, R.choice(SETS)))
+                    ops.append(("render", i, R.choice(tops)))
                 if R.random() < 0.03:
                     ops.append(("reg", i, "", "", "nameless"))           # no name at all: ValueError, registry unchanged
                 if R.random() < 0.08:
@@ -655,6 +665,13 @@ class C12(Prop):
                     ops += [("ctx", good_ctx), ("render", 0, top), ("translate", 0, "page")]
                 ops += [("tmpl", 0, "hdr", "<{{b}}>"), ("render", 0, top), ("translate", 0, "page"), ("render", 0, "{{>hdr}}")]
                 hist.append(self.hcase({"a": 5, "b": "B"}, ops, "a render that raised inside an include must leave no trace"))
+        for ctx in ({"name": "alice"}, {"name": "alice", "user": "bob", "q": 1}):
+            TQ = T + " {{q}}"
+            hist.append(self.hcase(ctx, [("new", 0, False, "none"), ("render", 0, TQ), ("strict", 0, True), ("render", 0, TQ),
+                                         ("strict", 0, False), ("render", 0, TQ), ("filt", 0, "over"), ("render", 0, TQ),
+                                         ("new", 1, True, "over"), ("render", 1, TQ), ("filt", 1, "none"), ("strict", 1, False),
+                                         ("render", 1, TQ), ("render", 0, TQ)],
+                                   "strict / filters re-assigned on a live instance take effect at the next render"))
         # registration probes: every way of getting templates into an instance, keys equal to / different from the
         # mRNA's own name, aliases, nameless values; includes and translate(name) resolve by the caller's key
         regs = []
@@ -750,7 +767,8 @@ class C12(Prop):
         if dict(m.Ribosome.BUILTIN_FILTERS) != self.builtin:
             m.Ribosome.BUILTIN_FILTERS.clear()
             m.Ribosome.BUILTIN_FILTERS.update(self.builtin)
-        sets = sorted({l.split()[3] for l in lines if l.startswith("new ") and len(l.split()) >= 4 and l.split()[3] in CUSTOM})
+        sets = sorted({l.split()[3] for l in lines if l.startswith("new ") and len(l.split()) >= 4 and l.split()[3] in CUSTOM}
+                      | {l.split()[2] for l in lines if l.startswith("filt ") and len(l.split()) == 3 and l.split()[2] in CUSTOM})
         if lines and lines[0].startswith("env"):
             allf = [f for st in sets for f in self.given(st)]
             cnames = []
@@ -818,6 +836,12 @@ class C12(Prop):
                     obs.append("ok")
                 except Exception as e:
                     obs.append(f"raise:{type(e).__name__}")
+            elif op == "strict" and len(t) == 3 and t[1] in insts:
+                insts[t[1]].strict = t[2] == "1"
+                obs.append("ok")
+            elif op == "filt" and len(t) == 3 and t[1] in insts and t[2] in CUSTOM:
+                insts[t[1]].filters = dict(self.given(t[2]))
+                obs.append("ok")
             elif op in ("render", "translate") and len(t) == 3 and t[1] in insts:
                 rb = insts[t[1]]
                 try:
@@ -868,6 +892,10 @@ class C12(Prop):
                 insts[t[1]]["templates"][unhexs(t[2])] = unhexs(t[4])
             elif op == "tmpl" and len(t) == 4 and t[1] in insts:
                 insts[t[1]]["templates"][unhexs(t[2])] = unhexs(t[3])
+            elif op == "strict" and len(t) == 3 and t[1] in insts:
+                insts[t[1]]["strict"] = t[2] == "1"
+            elif op == "filt" and len(t) == 3 and t[1] in insts and t[2] in CUSTOM:
+                insts[t[1]]["set"] = t[2]
             elif op in ("render", "translate") and len(t) == 3 and t[1] in insts:
                 i = insts[t[1]]
                 yield (idx, op, unhexs(t[2]), i["strict"], dict(i["templates"]), ab, fenv.get(i["set"], {}),
